@@ -271,7 +271,8 @@ Call(a) ==
   /\ LET ms == MStep(mem, a)
          rs == RStep(rds, a)
          W  == Post(World, a, ms.r)
-     IN /\ mem' = ms.m /\ rds' = rs.m
+     IN /\ mem' = ms.m
+        /\ rds' = IF reg /\ InRegion(a) THEN rs.m ELSE <<>>   \* not tracked outside the region
         /\ cset' = W.cs /\ seen' = W.sn
         /\ last' = [a |-> a, r |-> ms.r, rr |-> rs.r]
   /\ reg' = (reg /\ InRegion(a))
@@ -289,7 +290,7 @@ Step(a) == Call(a) \/ Tick(a)
 
 ---------------------------------------------------------------------------
 (* Bounded instance *)
-CONSTANTS NK, ValSet, TTLSet, SizeSet, DTTLSet, TickSet, MaxNow
+CONSTANTS NK, ValSet, TTLSet, SizeSet, DTTLSet, TickSet
 
 SetActs(VS) == [op : {"set"}, k : K, v : VS, ht : {TRUE}, ttl : TTLSet, nx : BOOLEAN, keep : BOOLEAN]
           \cup [op : {"set"}, k : K, v : VS, ht : {FALSE}, ttl : {0}, nx : BOOLEAN, keep : BOOLEAN]
@@ -297,11 +298,16 @@ GetActs  == [op : {"get"}, k : K, rm : BOOLEAN, upd : {TRUE}, ttl : TTLSet \cup 
        \cup [op : {"get"}, k : K, rm : BOOLEAN, upd : {FALSE}, ttl : {0}]
 RemActs  == [op : {"rem"}, k : K]
 MiscActs == {[op |-> "clear"], [op |-> "probe", ks |-> [i \in K |-> i]]}
-TickActs == {a \in [op : {"tick"}, d : TickSet] : now + a.d <= MaxNow}
+TickActs == [op : {"tick"}, d : TickSet]
 Acts     == SetActs(ValSet) \cup GetActs \cup RemActs \cup MiscActs \cup TickActs
 
 Init == \E sz \in SizeSet, dt \in DTTLSet : InitWith(NK, sz, dt, 0)
-Next == \E a \in Acts : Step(a)
+(* bound: a Set always stores a value different from the one the key holds (so that a stale *)
+(* read is visible) - the smallest such value                                              *)
+FreshVal(a) == a.op = "set" =>
+                 a.v = IF MHas(mem, a.k) /\ ~MExpired(mem, a.k) /\ mem.node[a.k].val = 1
+                       THEN 2 ELSE 1
+Next == \E a \in Acts : FreshVal(a) /\ Step(a)
 Spec == Init /\ [][Next]_allvars
 
 (* ------------------------- properties -------------------------------- *)
@@ -346,5 +352,13 @@ Consumed ==
           IF a.rm THEN \A S \in cset' : ~S[a.k].live
           ELSE \A S \in cset' : S[a.k].live /\ S[a.k].val = last'.r.v]_allvars
 
-View == vars
+(* Only the distance of a deadline from the clock matters, and nothing of a node whose    *)
+(* deadline has passed except its place in the list: the view forgets the absolute clock, *)
+(* which makes the reachable set finite without bounding the clock.                       *)
+RelDl(d)  == IF d = Never THEN Never ELSE IF d < now THEN 0 - 1 ELSE d - now
+RelS(S)   == [k \in K |-> IF S[k].live THEN [S[k] EXCEPT !.dl = RelDl(@)] ELSE S[k]]
+RelN(n)   == IF n.dl < now THEN [val |-> 0, dl |-> 0 - 1] ELSE [val |-> n.val, dl |-> RelDl(n.dl)]
+View == <<size, dttl, nk, {RelS(S) : S \in cset}, seen,
+          mem.lst, [k \in DOMAIN mem.node |-> RelN(mem.node[k])],
+          [k \in DOMAIN rds |-> [val |-> rds[k].val, ex |-> RelDl(rds[k].ex)]], reg>>
 =============================================================================
